@@ -1,6 +1,7 @@
 import SaModel.Roundtrip.Types
 import SaModel.Trace.Mapping
 import SaModel.Read.Cast
+import SaModel.Read.Access
 /-
 C04: the three descriptions of a Rust type, related.
 
@@ -155,11 +156,26 @@ def dvalEntries (k v : Ty) : VEntries → Read.DEntries
   | .cons a b rest => .cons (dvalOf k a) (dvalOf v b) (dvalEntries k v rest)
 end
 
-/-! ### the view `from_marrow` reads records from -/
+/-! ### `from_marrow(fields, views)` and reading one record -/
 
-/-- `Deserializer::from_marrow(fields, views)`: a non-nullable struct view of `len` records whose children are the
-given views under the schema's field names / nullability / metadata -/
-def rootArr (fields : List Field) (arrs : List Arr) (len : Nat) : Arr :=
-  .struct len none (ArrFields.ofList ((fields.zip arrs).map fun fa => (metaOfField fa.1, fa.2)))
+/-- the columns of the root reader: each view under its field's name / nullability / metadata -/
+def zipCols : List Field → List Arr → ArrFields
+  | f :: fs, a :: as => .cons (metaOfField f) a (zipCols fs as)
+  | _, _ => .nil
+
+/-- the root reader `Deserializer::new` builds once its checks returned the record count `len`:
+`StructDeserializer::new("$", columns, None, len)` -/
+def rootArr (fields : List Field) (arrs : List Arr) (len : Nat) : Arr := .struct len none (zipCols fields arrs)
+
+/-- `Deserializer::from_marrow(fields, views)` followed by reading record `i` into the target `t`
+(`deserializer.get(i)` / the `i`-th item of the iterator, then `T::deserialize`):
+count and length checks (`Access.new`), one `ArrayDeserializer::new` per column (`Read.new`), the typed read at `i` -/
+def readRecord (t : Read.Target) (fields : List Field) (arrs : List Arr) (i : Nat) : R Read.DVal := do
+  let len ← Access.new true fields.length (arrs.map Read.vlen)
+  let root := rootArr fields arrs len
+  Read.new Read.Fixes.all root
+  match Access.getIdx len i with
+  | none => fail "no such record"
+  | some idx => Read.readAs Read.Fixes.all t root idx
 
 end SaModel.Roundtrip
